@@ -135,6 +135,39 @@ func c20indep(s string) (ok bool, t, na, host, port, why string) {
 	return true, t, na, hh, pp, kind
 }
 
+// c20private: the documented private ranges ("192.168.**,10.***,127.***,172.16-31.**,169.254.**,^::1,^fd.{0,2}:")
+// applied to a resolved network address (host:port, a host with a colon in brackets), written
+// without the regular expression.
+func c20private(nar string) bool {
+	for _, p := range []string{"127.", "10.", "192.168.", "169.254", "[::1]"} {
+		if strings.HasPrefix(nar, p) {
+			return true
+		}
+	}
+	if strings.HasPrefix(nar, "172.") {
+		f := strings.SplitN(nar[4:], ".", 2)
+		if len(f) == 2 && len(f[0]) == 2 && f[0][0] >= '1' && f[0][0] <= '3' && f[0][1] >= '0' && f[0][1] <= '9' {
+			n, _ := strconv.Atoi(f[0])
+			return n >= 16 && n <= 31
+		}
+		return false
+	}
+	if strings.HasPrefix(nar, "[fd") {
+		rest := nar[3:]
+		for k := 0; k <= 2; k++ {
+			if strings.HasPrefix(rest, ":") {
+				return true
+			}
+			if rest == "" || rest[0] == '\n' {
+				return false
+			}
+			_, w := utf8.DecodeRuneInString(rest)
+			rest = rest[w:]
+		}
+	}
+	return false
+}
+
 func c20res(s string, err error) string {
 	if err != nil {
 		return "err"
@@ -244,6 +277,98 @@ func c20op(cs *h.Case, tk []string, outs *[]string) string {
 		}
 		out("shp:ok")
 		return "ok " + c20hex(hh) + " " + c20hex(pp)
+	case tk[0] == "resolve" && len(tk) >= 3 && (tk[2] == "err" && len(tk) == 3 || tk[2] == "ok"):
+		s, ok := arg(1)
+		if !ok {
+			return "bad-op"
+		}
+		var answer []string
+		for i := 3; i < len(tk); i++ {
+			x, ok := arg(i)
+			if !ok {
+				return "bad-op"
+			}
+			answer = append(answer, x)
+		}
+		fails := tk[2] == "err"
+		a := network.Address(s)
+		var asked []string
+		lookup := func(host string) ([]string, error) {
+			asked = append(asked, host)
+			if fails {
+				return nil, fmt.Errorf("no such host")
+			}
+			return answer, nil
+		}
+		// every call on its own: a panic (an empty answer without error) is the observation "panic"
+		call := func(f func() string) (r string) {
+			defer func() {
+				if e := recover(); e != nil {
+					r = "panic"
+				}
+			}()
+			network.VerifWithLookupHost(lookup, func() { r = f() })
+			return r
+		}
+		var res, nar string
+		var pub bool
+		obsRes := call(func() string { res = a.Resolve(); return c20hex(res) })
+		n1 := len(asked)
+		looked := "none"
+		if n1 > 0 {
+			looked = c20hex(asked[0])
+		}
+		obsNar := call(func() string { nar = a.NetworkAddressResolved(); return c20hex(nar) })
+		n2 := len(asked)
+		obsPub := call(func() string { pub = a.Public(); return c20b(pub) })
+		n3 := len(asked)
+		// the property's oracle (independent of the model)
+		v := a.Valid()
+		ho, po := a.Host(), a.Port()
+		isIP := net.ParseIP(ho) != nil
+		wantLookup := v && !isIP && c20docHostname(ho)
+		kind := "invalid"
+		switch {
+		case obsRes == "panic" || obsNar == "panic" || obsPub == "panic":
+			kind = "panic"
+			if fails || len(answer) > 0 || !wantLookup {
+				cs.Fail("panic", fmt.Sprintf("Resolve/NetworkAddressResolved/Public(%q) panics (lookup answer %q, error %v)", s, answer, fails))
+			}
+		case !v:
+			if res != "" || nar != "" || pub || n3 != 0 {
+				cs.Fail("resolve-invalid", fmt.Sprintf("%q is invalid but Resolve = %q, NetworkAddressResolved = %q, Public = %v, %d lookups", s, res, nar, pub, n3))
+			}
+		default:
+			want := ""
+			switch {
+			case isIP:
+				kind, want = "ip", ho
+			case wantLookup && fails:
+				kind = "lookup-err"
+			case wantLookup:
+				kind, want = "lookup", answer[0]
+			default:
+				kind = "nohost"
+			}
+			nLook := 0
+			if wantLookup {
+				nLook = 1
+			}
+			private := c20private(net.JoinHostPort(want, po))
+			switch {
+			case res != want || n1 != nLook || (nLook == 1 && asked[0] != ho):
+				cs.Fail("resolve-vs-host", fmt.Sprintf("Resolve(%q) = %q after %d lookups %q; host %q (%s), lookup answer %q error %v", s, res, n1, asked, ho, kind, answer, fails))
+			case nar != net.JoinHostPort(want, po) || n2 != 2*nLook:
+				cs.Fail("resolved-address", fmt.Sprintf("NetworkAddressResolved(%q) = %q, resolved host %q port %q", s, nar, want, po))
+			case pub != !private || n3 != 3*nLook:
+				cs.Fail("public-vs-ranges", fmt.Sprintf("Public(%q) = %v, resolved address %q is private: %v", s, pub, net.JoinHostPort(want, po), private))
+			}
+			if private {
+				kind += ":private"
+			}
+		}
+		out("resolve:" + kind)
+		return fmt.Sprintf("res=%s nar=%s public=%s looked=%s", obsRes, obsNar, obsPub, looked)
 	case tk[0] == "lower" && len(tk) == 2:
 		s, ok := arg(1)
 		if !ok {
@@ -861,6 +986,56 @@ func c20generate(c *h.Ctx, yield func(*h.Case)) {
 			class = "listen-any"
 		}
 		one(class, fmt.Sprintf("c20 listen %s %s", c20hex(a), c20hex(g.listenAddr())))
+	}
+	// ---- resolution and public/private: address x answer of the DNS lookup
+	resolveOp := func(a string, fails bool, answer []string) string {
+		if fails {
+			return "c20 resolve " + c20hex(a) + " err"
+		}
+		op := "c20 resolve " + c20hex(a) + " ok"
+		for _, x := range answer {
+			op += " " + c20hex(x)
+		}
+		return op
+	}
+	answers := []string{"10.1.2.3", "8.8.8.8", "127.0.0.1", "128.0.0.1", "172.16.0.9", "172.15.0.9", "172.31.255.1", "172.32.0.1",
+		"172.2.0.1", "172.20.1", "192.168.0.1", "192.169.0.1", "169.254.0.1", "169.2541", "169.253.0.1", "1.10.0.1", "::1", "::2", "0:0:0:0:0:0:0:1",
+		"fd00::1", "fd:1::", "fda:1::", "fdab:1::", "fdabc:1::", "FD00::1", "fe80::1", "fd\u00e9\u00e9:1", "fd\u00e9\u00e9\u00e9:1", "fd\n:1", "fd\xff:1",
+		"", "[fd00::1]", "[::1]", "::1]x:", "localhost", "a:b"}
+	for _, a := range []string{"tcp://localhost:80", "tls://a.b.:7770", "tcp://10.0.0.1:80", "tcp://11.0.0.1:80", "tcp://[::1]:80", "tcp://[::]:80",
+		"tcp://[fd00::1]:80", "tcp://[FD00::1]:1", "tcp://[fe80::1]:1", "tcp://[fd:1::]:1", "tcp://[fdab:1::]:1", "tcp://:80", "tcp://172.16.0.1:1",
+		"tcp://172.15.0.1:1", "tcp://172.31.0.1:1", "tcp://172.32.0.1:1", "tcp://169.254.1.1:1", "tcp://192.168.1.1:1", "tcp://192.169.1.1:1",
+		"tcp://127.0.0.1:1", "tcp://128.0.0.1:1", "local://127.0.0.1:2000", "udp://a.b:80", "tcp://a.b:65536", "tcp://x_y:1", "tcp://A.B:1", "tcp://a..b:1", "a.b:80", ""} {
+		one("corpus-resolve", resolveOp(a, true, nil))
+		one("corpus-resolve", resolveOp(a, false, nil)) // an empty answer without error: the code indexes it
+		for _, x := range answers {
+			one("corpus-resolve", resolveOp(a, false, []string{x, "9.9.9.9"}))
+		}
+	}
+	for i := 0; i < c.Pick(20000, 100000); i++ {
+		a := g.goodAddress()
+		class := "resolve-valid"
+		if g.n(6) == 0 {
+			a, _ = g.address()
+			class = "resolve-any"
+		}
+		switch g.n(8) {
+		case 0:
+			one(class+"-err", resolveOp(a, true, nil))
+		case 1:
+			one(class+"-v4", resolveOp(a, false, []string{g.ipv4()}))
+		case 2:
+			one(class+"-v6", resolveOp(a, false, []string{g.ipv6(), g.ipv4()}))
+		case 3:
+			// near the private ranges
+			x := g.pick("10.", "127.", "172.", "192.168.", "169.254", "192.16", "17", "1") + g.chars("0123456789.", g.n(8))
+			one(class+"-near", resolveOp(a, false, []string{x}))
+		case 4:
+			x := g.pick("fd", "fd", "fc", "FD", "f", "::1", "[fd") + g.chars("0123456789abcdef:\n]\xc3\xa9", g.n(7))
+			one(class+"-near6", resolveOp(a, false, []string{x}))
+		default:
+			one(class+"-table", resolveOp(a, false, []string{answers[g.n(len(answers))]}))
+		}
 	}
 	// ---- websocket host:port: server address x global x explicit URL
 	for i := 0; i < c.Pick(20000, 80000); i++ {
